@@ -288,6 +288,11 @@ def writeRawText (text : Bytes) : M Unit := do
   emit (.escaped text)
   fx b!"';\n"
 
+/-- walk the child that was looked up; a missing child is a nil node / an index out of range -/
+def orFail : Option (M Unit) → M Unit
+  | some w => w
+  | none => fail
+
 /-- `name` as an identifier, or nothing for the "" of an unbound lookup -/
 def identOrEmpty : Option Bytes → Piece
   | some g => .ident g
@@ -303,9 +308,7 @@ def walkKeys (ws : List (Bytes × M Unit)) : List Bytes → Bool → M Unit
     fx b!"\""
     emit (.escaped k)
     fx b!"\":"
-    match assocGet? ws k with
-    | some w => w
-    | none => fail
+    orFail (assocGet? ws k)
     walkKeys ws r false
 
 section
@@ -362,10 +365,13 @@ def applyParts (ws : List (M Unit)) : List Gen.JsFnPart → M Unit
   | [] => pure ()
   | .text b :: r => do fx b; applyParts ws r
   | .arg i :: r => do
-    match ws[i]? with
-    | some w => w
-    | none => fail
+    orFail ws[i]?
     applyParts ws r
+
+/-- fn.Apply(s, args) for the recorded behaviour at this number of arguments -/
+def applyFn (ws : List (M Unit)) : Option (Option (List Gen.JsFnPart)) → M Unit
+  | some (some parts) => applyParts ws parts
+  | _ => fail
 
 def mapKeys : MapItems → List Bytes
   | .nil => []
@@ -394,9 +400,7 @@ mutual
       atOther
       match findFunc name with
       | some f => do
-        match f.emit[args.length]? with
-        | some (some parts) => applyParts (argWalkers args) parts
-        | _ => fail
+        applyFn (argWalkers args) f.emit[args.length]?
         whenM (isEs6 o) (addCalled name (tableImport f.fnName))
       | none =>
         if name == b!"isFirst" then do
@@ -519,21 +523,18 @@ mutual
   def evalMsgParts (phs : List (Nat × Bytes × M Unit)) (pls : List (Bytes × Expr)) : MParts → M Unit
     | .nil => pure ()
     | .cons p r => do
-      match p with
-      | .raw t => writeRawText t
-      | .ph name =>
-        match findPh name phs none with
-        | some w => w
-        | none => fail                                  -- "failed to find placeholder"
-      | .plural vn cases =>
-        match assocGet? pls vn with
-        | none => fail                                  -- findPluralNode
-        | some v => do
-          indentP; fx b!"switch (soy.$$pluralIndex("; walkExpr sk o v; fx b!")) {"; nl
-          incIndent
-          evalCases phs pls cases 0
-          decIndent
-          indentP; fx b!"}"; nl
+      (match p with
+        | .raw t => writeRawText t
+        | .ph name => orFail (findPh name phs none)      -- "failed to find placeholder"
+        | .plural vn cases =>
+          match assocGet? pls vn with
+          | none => fail                                  -- findPluralNode
+          | some v => do
+            indentP; fx b!"switch (soy.$$pluralIndex("; walkExpr sk o v; fx b!")) {"; nl
+            incIndent
+            evalCases phs pls cases 0
+            decIndent
+            indentP; fx b!"}"; nl)
       evalMsgParts phs pls r
   def evalCases (phs : List (Nat × Bytes × M Unit)) (pls : List (Bytes × Expr)) : MCases → Nat → M Unit
     | .nil, _ => pure ()
@@ -601,21 +602,21 @@ mutual
     | .msg _ id _ _ _ body => do
       atOther
       pushScope
-      match o.messages with
-      | none => visitMsgNode body
-      | some bundle =>
-        match lookupMsg bundle id with
+      (match o.messages with
         | none => visitMsgNode body
-        | some parts => evalMsgParts sk o (phTable body 0) (plTable body) parts
+        | some bundle =>
+          match lookupMsg bundle id with
+          | none => visitMsgNode body
+          | some parts => evalMsgParts sk o (phTable body 0) (plTable body) parts)
       popScope
     | .css _ e suffix => do
       atOther
-      match e with
-      | some e => do
-        indentP
-        let b ← getBuf
-        emit (.ident b); fx b!" += "; walkExpr sk o e; fx b!" + '-';"; nl
-      | none => pure ()
+      (match e with
+        | some e => do
+          indentP
+          let b ← getBuf
+          emit (.ident b); fx b!" += "; walkExpr sk o e; fx b!" + '-';"; nl
+        | none => pure ())
       writeRawText suffix
     | .debugger _ => do atOther; indentP; fx b!"debugger;"; nl
     | .log _ body => do
@@ -652,8 +653,9 @@ mutual
         let initJs ← block (walkExpr sk o init)
         let incrJs ← block (walkExpr sk o incr)
         let sc ← getScope
-        let ((varIndex, varLimit), sc') := sc.pushForRange v
-        setScope sc'
+        let varIndex := (sc.pushForRange v).1.1
+        let varLimit := (sc.pushForRange v).1.2
+        setScope (sc.pushForRange v).2
         indentP; fx b!"var "; emit (.ident varLimit); fx b!" = "; emits limitJs; fx b!";"; nl
         indentP; fx b!"for (var "; emit (.ident varIndex); fx b!" = "; emits initJs; fx b!"; "
         emit (.ident varIndex); fx b!" < "; emit (.ident varLimit); fx b!"; "
@@ -667,8 +669,11 @@ mutual
         -- visitForeach: only the loop body is in the scope of the loop variable
         let listJs ← block (walkExpr sk o list)
         let sc ← getScope
-        let ((itemData, itemList, itemListLen, itemIndex), sc') := sc.pushForEach v
-        setScope sc'
+        let itemData := (sc.pushForEach v).1.1
+        let itemList := (sc.pushForEach v).1.2.1
+        let itemListLen := (sc.pushForEach v).1.2.2.1
+        let itemIndex := (sc.pushForEach v).1.2.2.2
+        setScope (sc.pushForEach v).2
         indentP; fx b!"var "; emit (.ident itemList); fx b!" = "; emits listJs; fx b!";"; nl
         indentP; fx b!"var "; emit (.ident itemListLen); fx b!" = "; emit (.ident itemList); fx b!".length;"; nl
         whenM ifEmpty.isSome (do
@@ -722,17 +727,15 @@ mutual
       atOther
       let value ← block (walkExpr sk o e)
       let sc ← getScope
-      let (g, sc') := sc.makevar name
-      setScope sc'
-      indentP; fx b!"var "; emit (.ident g); fx b!" = "; emits value; fx b!";"; nl
+      setScope (sc.makevar name).2
+      indentP; fx b!"var "; emit (.ident (sc.makevar name).1); fx b!" = "; emits value; fx b!";"; nl
     | .letContent _ name body => do
       atOther
       let old ← getBuf
       let sc ← getScope
-      let (g, sc') := sc.genname name
-      setScope sc'
-      setBuf g
-      indentP; fx b!"var "; emit (.ident g); fx b!" = '';"; nl
+      setScope (sc.genname name).2
+      setBuf (sc.genname name).1
+      indentP; fx b!"var "; emit (.ident (sc.genname name).1); fx b!" = '';"; nl
       walkBlock body
       let cur ← getBuf
       let sc2 ← getScope
@@ -777,9 +780,9 @@ mutual
     | .nil, _ => pure ()
     | .cons _ cond body rest, first => do
       whenM (!first) (fx b!" else ")
-      match cond with
-      | some c => do fx b!"if ("; walkExpr sk o c; fx b!") "
-      | none => pure ()
+      (match cond with
+        | some c => do fx b!"if ("; walkExpr sk o c; fx b!") "
+        | none => pure ())
       fx b!"{\n"
       incIndent
       walkBlock body
@@ -806,10 +809,9 @@ mutual
     | .content _ key body rest, first, acc => do
       let old ← getBuf
       let sc ← getScope
-      let (g, sc') := sc.genname b!"param"
-      setScope sc'
-      setBuf g
-      indentP; fx b!"var "; emit (.ident g); fx b!" = '';"; nl
+      setScope (sc.genname b!"param").2
+      setBuf (sc.genname b!"param").1
+      indentP; fx b!"var "; emit (.ident (sc.genname b!"param").1); fx b!" = '';"; nl
       walkBlock body
       let cur ← getBuf
       setBuf old
